@@ -261,4 +261,47 @@ static CMR_ERROR op_relsum(CMR* cmr, TOKS* t, OUT* o)
   return CMR_OKAY;
 }
 
-OPDEF ops_rel[] = { { "rel", op_rel }, { "relsum", op_relsum }, { NULL, NULL } };
+/* tuall M <k> mask*  : CMRtuTest under each option mask (algorithm, strategy, flags) on the same matrix -> verdict tokens */
+static CMR_ERROR op_tuall(CMR* cmr, TOKS* t, OUT* o)
+{
+  CMR_CHRMAT* A = NULL;
+  HCALL( in_chrmat(cmr, t, &A) );
+  if (t->bad) { if (A) CMRchrmatFree(cmr, &A); return CMR_OKAY; }
+  int k = (int) tk_int(t);
+  if (t->bad || k < 1 || k > 32) { t->bad = 1; CMRchrmatFree(cmr, &A); return CMR_OKAY; }
+  out_str(o, " v");
+  for (int i = 0; i < k && !t->bad; ++i)
+  {
+    REC r; strcpy(r.name, "tu"); r.mask = (unsigned long) tk_int(t);
+    if (!t->bad) recognize(cmr, &r, A, o);
+  }
+  CMRchrmatFree(cmr, &A);
+  return CMR_OKAY;
+}
+
+/* tusigned <mask> M(0/1) : Camion-sign the 0/1 matrix with the library, then CMRtuTest (mask) on the signed matrix and
+ * CMRregularTest (mask without the ternary bit) on the input  ->  reg=<y|n> tu=<y|n> <signed matrix> */
+static CMR_ERROR op_tusigned(CMR* cmr, TOKS* t, OUT* o)
+{
+  unsigned long mask = (unsigned long) tk_int(t);
+  CMR_CHRMAT* A = NULL;
+  HCALL( in_chrmat(cmr, t, &A) );
+  if (t->bad) { if (A) CMRchrmatFree(cmr, &A); return CMR_OKAY; }
+  CMR_CHRMAT* S = NULL;
+  HCALL( CMRchrmatCopy(cmr, A, &S) );
+  bool was = false;
+  CMR_ERROR e = CMRcamionComputeSigns(cmr, S, &was, NULL, NULL, h_time_limit);
+  if (!e)
+  {
+    REC r; strcpy(r.name, "reg"); r.mask = mask & ~4UL;
+    out_str(o, " reg"); recognize(cmr, &r, A, o);
+    strcpy(r.name, "tu"); r.mask = mask | 4UL;
+    out_str(o, " tu"); recognize(cmr, &r, S, o);
+    out_chrmat(o, S);
+  }
+  CMRchrmatFree(cmr, &S);
+  CMRchrmatFree(cmr, &A);
+  return e;
+}
+
+OPDEF ops_rel[] = { { "rel", op_rel }, { "relsum", op_relsum }, { "tuall", op_tuall }, { "tusigned", op_tusigned }, { NULL, NULL } };
